@@ -91,12 +91,6 @@ Proof.
   rewrite <- (firstn_skipn i l) in H. rewrite fit_app in H. apply andb_true_iff in H. destruct H as [H1 H2].
   rewrite H1, H2. reflexivity.
 Qed.
-Lemma fit_insert_before_last k l t : all_fit k l = true -> fits k t = true -> all_fit k (insert_before_last l t) = true.
-Proof.
-  intros H Ht. unfold insert_before_last. destruct (rev l) as [|x r] eqn:E; [rewrite fit_one; exact Ht|].
-  rewrite <- fit_rev in H. rewrite E in H. rewrite fit_cons in H. apply andb_true_iff in H. destruct H as [Hx Hr].
-  rewrite fit_app, fit_rev, Hr, fit_cons, Ht, fit_one, Hx. reflexivity.
-Qed.
 
 (* ---- the loops ---- *)
 Lemma parse_loop_depth h : dspec_h h -> forall iters rules st rf st2 rf2 d, rules_fit rules d ->
@@ -168,7 +162,7 @@ Proof.
   pose proof (parse_child_depth h _ _ _ _ _ d Hl (proj1 Hsa) Ec) as Hch.
   assert (Hq : fits (mx - d) (BQuote ch) = true) by (rewrite (budget_step d Hd); cbn; exact Hch).
   destruct (Block.truthy e); inversion H; subst.
-  - unfold dinv. cbn. split; [exact (proj1 Hsa)|]. apply fit_insert_before_last; [exact (proj2 Hsa)|exact Hq].
+  - unfold dinv. cbn. split; [exact (proj1 Hsa)|]. apply fit_insert; [exact (proj2 Hsa)|exact Hq].
   - apply dinv_append; [exact Hsa|exact Hq].
 Qed.
 
